@@ -132,6 +132,22 @@ PROPS = {
         "trusted_base": ["std DefaultHasher treated as injective on the hashed byte sequences", "Debug for f64 is injective on non-NaN values"],
         "assumptions": ["floats cross the wire as 64-bit patterns", "conclusion-index goals have the form `field op literal` with the operator spellings of extract_field_from_goal"],
     },
+    "C20": {
+        "num": 20,
+        "vo": ["Properties/C20.vo"],
+        "rule": "random histories of 3..10 ops (put / put_with_ttl 0..5ms / update / delete / clock advance 0..10ms / checkpoint / restore of any issued id) over 3 keys with max_checkpoints 1,2,3,10 under the "
+                "injected clock (so several checkpoints share a millisecond); every third history also injects crashes at the 5 crash points of the real checkpoint writer (inside write_all: nothing / strict prefix / "
+                "all bytes), followed by a clock advance; a fixed family covers every crash point x restore of the interrupted and of the earlier checkpoint; 40 (quick) / 400 (thorough) truncation sweeps restore from "
+                "EVERY truncation offset of a real state.json. After every op: result, get of 3 keys, len, listed checkpoints, status/content of every checkpoint directory. non-trivial = at least one checkpoint",
+        "level_text": "Proved on the model, for every history: retained checkpoint ids are pairwise distinct (also within one millisecond, also after retention); a retained checkpoint's file is never changed by any later "
+                "operation incl. checkpoints interrupted at any crash point; checkpoint-then-anything-then-restore reads back exactly the unexpired keys and values of checkpoint time; restoring an interrupted checkpoint "
+                "fails with the store untouched or yields its complete state. The model is tied to state.rs by per-op comparison under the injected clock and the real crash points; the Coq-defined snapshot specification "
+                "State.ok is evaluated on the implementation's observations; the byte-level assumption (a strict prefix of the JSON never parses) is exercised on every truncation offset of real files.",
+        "level_note": "Trusted: Coq kernel; model of state.rs after fixes 72cdb63/4a8a109; abstract file system (file = empty / strict prefix / complete JSON; no write reordering, fsync or directory-entry durability: "
+                "partial w.r.t. real file systems); serde_json round-trip for integer and string values; hooks now_ms/crash_at; harness; extraction. Axioms: none.",
+        "trusted_base": ["serde_json: a strict prefix of a serialized map never parses; the complete document parses back to the same map (exercised by the truncation sweep)"],
+        "assumptions": ["a process interrupted during a checkpoint does not take another checkpoint within the same millisecond (the harness advances the clock after a crash)"],
+    },
     "C13": {
         "num": 13,
         "vo": ["Properties/C13.vo"],
